@@ -331,7 +331,7 @@ def file_cases(ctx, rnd, np, nfiles, direct, scratch):
             raise
         except Exception as ex:
             direct.append({"test": "dat-file write/read raised %s: %s" % (type(ex).__name__, str(ex)[:200]), "case": fi,
-                           "files": sorted(f for f in os.listdir(scratch) if f.startswith(("f%d_" % fi, "s%d." % fi)))})
+                           "files": sorted(f for f in os.listdir(scratch) if f.startswith(("f%d_" % fi, "s%d." % fi, "s%dc" % fi)) or f == "s%d" % fi)})
     return cases
 
 
@@ -376,9 +376,26 @@ def file_case_one(ctx, rnd, np, D, CalAngleData, BaseParticle, fi, cases, direct
         order = names[:]
         rnd.shuffle(order)
         cad = CalAngleData({"particle": {BaseParticle(nm): {"p": ps[k]} for k, nm in enumerate(names)}})
-        fn = os.path.join(scratch, "s%d.dat" % fi)
-        cad.savetxt(fn, order=[BaseParticle(o) for o in order])
-        raw = np.loadtxt(fn).reshape((-1, 4))
+        # file names with and without an extension; with save_charge a second file (the charge column) is written
+        ext = ["", ".dat", ".txt"][fi % 3]
+        fn = os.path.join(scratch, "s%d%s" % (fi, ext))
+        charge = fi % 2 == 0
+        ctx.count("savetxt_name=%s%s" % (ext or "no-extension", "+charge" if charge else ""))
+        if charge:
+            cad["charge_conjugation"] = np.array([rnd.choice([-1.0, 1.0]) for _ in range(N)])
+        before = set(os.listdir(scratch))
+        cad.savetxt(fn, order=[BaseParticle(o) for o in order], save_charge=charge)
+        created = sorted(set(os.listdir(scratch)) - before)
+        sv = {"op": "CalAngleData.savetxt", "file": os.path.basename(fn), "save_charge": charge, "order": order, "n_events": N, "files_written": created}
+        raw = np.loadtxt(fn, ndmin=2)
+        if raw.shape != (N * n, 4):
+            direct.append(dict(sv, test="np.loadtxt(momentum file written by CalAngleData.savetxt).shape == (n_events*n_particles, 4)", got_shape=list(raw.shape)))
+            return
+        if charge:
+            others = [f for f in created if f != os.path.basename(fn)]
+            ok = len(others) == 1 and np.array_equal(np.loadtxt(os.path.join(scratch, others[0]), ndmin=1), cad["charge_conjugation"])
+            if not ok:
+                direct.append(dict(sv, test="CalAngleData.savetxt(save_charge=True) writes the charges to ONE file next to the momentum file"))
         mom = "[" + ";".join("(%d%%Z,%s)" % (k, zl(rows(ps[k]))) for k in range(n)) + "]"
         oz = zl([names.index(o) for o in order])
         cases.append(("savetxt_%d" % fi, "list_eqb Z.eqb (savetxt_order %s %s) %s = true" % (oz, mom, zl(rows(raw))),
@@ -449,6 +466,42 @@ def config_cases(ctx, rnd, np, direct, scratch, nperm):
         cases.append(("savedata_%d" % k, "data_eqb %s %s && data_eqb %s %s = true" % (enc(d), enc(back), enc(d), enc(backz)), {"op": "save_data/load_data", "k": k}))
         if not (struct_eq(d, back) and struct_eq(d, backz)):
             direct.append({"test": "load_data(save_data(d)) == d", "struct": repr(D.data_struct(d))})
+    # a list / tuple of k data groups (what the `multi` data mode holds), k = 1, 2, 3; np.save stores the sequence level as an
+    # object array: compared as a sequence.  Arrays with ONE event (shapes (1,), (1,4)) and with two
+    for k in range(1, 4):
+        for kind in (list, tuple):
+            grp = kind({"m": g.leaf(4 + k), "w": {"x": g.leaf(4 + k, True)}} for _ in range(k))
+            for tag, save in (("npy", D.save_data), ("npz", D.save_dataz)):
+                fn = os.path.join(scratch, "grp%d%s.%s" % (k, kind.__name__, tag))
+                ctx.evaluations += 1
+                ctx.count("save_data_groups=%d" % k)
+                inp = {"op": "save_data/load_data", "saved": "%s of %d dict(s)" % (kind.__name__, k), "file": tag}
+                try:
+                    save(fn, grp)
+                    back = D.load_data(fn)
+                except Exception as ex:
+                    direct.append(dict(inp, test="load_data(save_data([group, ...])) raised %s: %s" % (type(ex).__name__, str(ex)[:160])))
+                    continue
+                inp["loaded_type"] = type(back).__name__
+                ok = not isinstance(back, dict) and hasattr(back, "__len__") and len(back) == k and all(struct_eq(a, b) for a, b in zip(grp, back))
+                if ok:
+                    cases.append(("savegrp_%d_%s_%s" % (k, kind.__name__, tag), "data_eqb %s %s = true" % (enc(list(grp)), enc(list(back))), inp))
+                else:
+                    direct.append(dict(inp, test="load_data(save_data([group, ...])) is the same sequence of groups"))
+    for shp in ((1,), (1, 4), (2,), (2, 4)):
+        a = g.leaf(shp[0], len(shp) == 2)
+        for tag, save in (("npy", D.save_data), ("npz", D.save_dataz)):
+            fn = os.path.join(scratch, "arr%s.%s" % ("x".join(map(str, shp)), tag))
+            ctx.evaluations += 1
+            ctx.count("save_data_array_rows=%d" % shp[0])
+            try:
+                save(fn, a)
+                back = D.load_data(fn)
+            except Exception as ex:
+                direct.append({"test": "load_data(save_data(array)) raised %s: %s" % (type(ex).__name__, str(ex)[:160]), "shape": list(shp), "file": tag})
+                continue
+            if not (isinstance(back, np.ndarray) and back.shape == a.shape and np.array_equal(back, a)):
+                direct.append({"test": "load_data(save_data(array)) == array", "shape": list(shp), "file": tag, "loaded": repr(back)[:80]})
     cl = ConfigLoader(dict(CFG, data={"dat_order": ["B", "C", "D"], "cached_data": os.path.join(scratch, "cached.npy")}))
     d = {"data": {"x": g.leaf(7)}, "phsp": {"x": g.leaf(11)}, "bg": None, "inmc": None}
     cl.data.save_cached_data(d)
@@ -594,6 +647,174 @@ def lazy_cases(ctx, rnd, np, nlazy, direct, scratch=None):
     return cases
 
 
+def mz(m):
+    """a 2-D integer array as a Coq list of rows"""
+    import numpy as np
+
+    m = m.numpy() if hasattr(m, "numpy") else np.asarray(m)
+    if m.ndim != 2 or not np.all(m == np.floor(m)):
+        raise BadLeaf("not a 2-D integer array: shape %r" % (m.shape,))
+    return "[" + ";".join(zl([int(x) for x in r]) for r in m) + "]"
+
+
+def axis_cases(ctx, rnd, np, ntrees, direct):
+    """data_split(d, b, axis=-1) / data_merge(*pieces, axis=-1): events along the LAST axis.
+    trees: leaves (n,) and (4, n) (the transposed (n,4) leaf), encoded by their slices along the split axis -> the tree model;
+    matrices (c, n), c = 1..3, bare and nested in dict / list / tuple -> split_last / concat_last"""
+    from tf_pwa import data as D
+
+    g = Gen(rnd, np)
+    cases = []
+    T = lambda d: D.data_map(d, lambda a: a if a.ndim == 1 else a.T)
+    sizes = [1, 2, 3, 4, 6] + [rnd.randrange(5, 31) for _ in range(max(0, ntrees - 5))]
+    for ti, n in enumerate(sizes[:ntrees]):
+        dT = g.tree(n, rnd.choice([1, 2, 2, 3]))  # events along axis 0 ...
+        if not has_leaf(dT):
+            dT = {"a": dT, "b": g.leaf(n, True)}
+        d = T(dT)  # ... now along the last axis
+        for b in batch_sizes(rnd, n):
+            inp = {"op": "data_split / data_merge, axis=-1", "tree": ti, "n": n, "batch": b, "struct": repr(D.data_struct(d))}
+            ctx.evaluations += 1
+            ctx.count("axis-1_batch=%s" % ("1" if b == 1 else ">n" if b > n else "divides" if n % b == 0 else "non-dividing"))
+            try:
+                pieces = [D.data_to_numpy(p) for p in D.data_split(d, b, axis=-1)]
+                m = D.data_to_numpy(D.data_merge(*pieces, axis=-1))
+                ok = struct_eq(m, d)
+                if ok:
+                    ctx.distinct.add(("axis-1", ti, b))
+                    cases.append(("axsplit_t%d_b%d" % (ti, b), "list_eqb data_eqb (data_split 1000 %d %s) [%s] = true" % (b, enc(dT), ";".join(enc(T(p)) for p in pieces)), inp))
+                    cases.append(("axmerge_t%d_b%d" % (ti, b), "odata_eqb (merge_all [%s]) (Some %s) = true" % (";".join(enc(T(p)) for p in pieces), enc(T(m))), inp))
+                else:
+                    direct.append(dict(inp, test="data_merge(*data_split(d, b, axis=-1), axis=-1) == d", got_struct=repr(D.data_struct(m))))
+            except BadLeaf:
+                raise
+            except Exception as ex:
+                direct.append(dict(inp, test="data_merge(*data_split(d, b, axis=-1), axis=-1) raised %s: %s" % (type(ex).__name__, str(ex)[:160])))
+    wraps = [("bare", lambda a: a, lambda r: r), ("dict", lambda a: {"a": a, "e": {}}, lambda r: r["a"]), ("list", lambda a: [a], lambda r: r[0]),
+             ("tuple", lambda a: ((), a), lambda r: r[1]), ("deep", lambda a: {"c": [{"d": a}]}, lambda r: r["c"][0]["d"])]
+    for mi in range(ntrees):
+        c, n = rnd.randrange(1, 4), rnd.choice([1, 2, 4, 6, rnd.randrange(1, 21)])
+        M = (np.arange(c * n, dtype=np.float64) * 3 + 100 * mi).reshape((c, n))
+        wname, wrap, get = wraps[mi % len(wraps)]
+        for b in batch_sizes(rnd, n)[:4]:
+            inp = {"op": "data_split / data_merge, axis=-1", "array": "(%d, %d) %s" % (c, n, wname), "batch": b, "rows": M.tolist() if M.size <= 24 else None}
+            ctx.evaluations += 1
+            ctx.count("axis-1_array_%s" % wname)
+            try:
+                pieces = [D.data_to_numpy(p) for p in D.data_split(wrap(M), b, axis=-1)]
+                m = D.data_to_numpy(D.data_merge(*pieces, axis=-1))
+                cases.append(("axm_%d_b%d_split" % (mi, b), "list_eqb mat_eqb (split_last %d %s) [%s] = true" % (b, mz(M), ";".join(mz(get(p)) for p in pieces)), inp))
+                cases.append(("axm_%d_b%d_merge" % (mi, b), "mat_eqb (concat_last [%s]) %s = true" % (";".join(mz(get(p)) for p in pieces), mz(get(m))), inp))
+                if not struct_eq(m, wrap(M)):
+                    direct.append(dict(inp, test="data_merge(*data_split(d, b, axis=-1), axis=-1) == d", got_shape=list(get(m).shape)))
+            except BadLeaf:
+                raise
+            except Exception as ex:
+                direct.append(dict(inp, test="data_merge(*data_split(d, b, axis=-1), axis=-1) raised %s: %s" % (type(ex).__name__, str(ex)[:160])))
+    return cases
+
+
+def lazyfile_cases(ctx, rnd, np, nlf, direct):
+    """LazyFile(x) (= LazyCall(identity, x)) with 0, 1, 2 extra entries: eval, every batch size visited TWICE (as_dataset caches per batch size),
+    batch_call on each pass; and LazyCall(HeavyCall(f), LazyFile(x)) as ConfigLoader builds it for lazy_file"""
+    from tf_pwa import data as D
+
+    cases = []
+    g = Gen(rnd, np)
+    ident = "(fun d => d)"
+    for li in range(nlf):
+        n = rnd.choice([1, 2, 5, 9, rnd.randrange(1, 41)])
+        x = {k: g.leaf(n, rnd.random() < 0.3) for k in sorted(rnd.sample(KEYS[:4], rnd.randrange(1, 4)))}
+        extra = {k: g.leaf(n) for k in sorted(rnd.sample(KEYS[4:], li % 3))}
+        lf = D.LazyFile(x)
+        for k, v in extra.items():
+            lf[k] = v
+        X, E = enc(x), enc(extra)
+        inp0 = {"op": "LazyFile", "n": n, "keys": sorted(x), "extra": sorted(extra)}
+        ctx.count("lazyfile_extra=%d" % len(extra))
+        try:
+            ev = D.data_to_numpy(lf.eval())
+            cases.append(("lfeval_%d" % li, "data_eqb (lazy_eval %s %s %s) %s = true" % (ident, X, E, enc(ev)), dict(inp0, op="LazyFile.eval")))
+            bs = batch_sizes(rnd, n)[:3]
+            for vi, b in enumerate(bs + bs[::-1]):
+                pieces = [D.data_to_numpy(p) for p in lf.as_dataset(b)]
+                ctx.evaluations += 1
+                ctx.distinct.add(("lazyfile", li, b, vi >= len(bs)))
+                inp = dict(inp0, op="LazyFile iteration", batch=b, visit=vi)
+                cases.append(("lfit_%d_%d_b%d" % (li, vi, b), "list_eqb data_eqb (lazy_batches %s 1000 %d %s %s) [%s] = true" % (ident, b, X, E, ";".join(enc(p) for p in pieces)), inp))
+                want = dict(x, **extra)
+                if not (pieces and struct_eq(D.data_merge(*pieces), want)):
+                    direct.append(dict(inp, test="data_merge(*LazyFile.as_dataset(b)) == {**x, **extra}", got_keys=sorted(pieces[0]) if pieces else None))
+                out = D.data_to_numpy(D.batch_call(lambda d: d, lf, b))
+                if not struct_eq(out, want):
+                    direct.append(dict(inp, test="batch_call(identity, LazyFile, b) == {**x, **extra}", got_keys=sorted(out)))
+            if not struct_eq(ev, dict(x, **extra)):
+                direct.append(dict(inp0, test="LazyFile.eval() == {**x, **extra}", got_keys=sorted(ev)))
+            # the ConfigLoader form: a HeavyCall over the LazyFile, own extra entries on the outer object
+            a, c = rnd.randrange(1, 5), rnd.randrange(-3, 4)
+            x1 = {k: v for k, v in x.items() if v.ndim == 1} or {"a": g.leaf(n)}
+            outer = D.LazyCall(D.HeavyCall(lambda d: {k: a * v + c for k, v in d.items()}), D.LazyFile(x1))
+            for k, v in extra.items():
+                outer[k] = v
+            fm = "(map_leaves (affine (%d)%%Z (%d)%%Z))" % (a, c)
+            for vi, b in enumerate(bs + bs[::-1]):
+                pieces = [D.data_to_numpy(p) for p in outer.as_dataset(b)]
+                ctx.evaluations += 1
+                cases.append(("lfheavy_%d_%d_b%d" % (li, vi, b), "list_eqb data_eqb (lazy_batches %s 1000 %d %s %s) [%s] = true" % (fm, b, enc(x1), E, ";".join(enc(p) for p in pieces)),
+                              dict(inp0, op="LazyCall(HeavyCall, LazyFile) iteration", batch=b, visit=vi)))
+        except BadLeaf:
+            raise
+        except Exception as ex:
+            direct.append(dict(inp0, test="LazyFile eval / iteration raised %s: %s" % (type(ex).__name__, str(ex)[:160])))
+    return cases
+
+
+def shared_inner_cases(ctx, rnd, np, nsh, direct):
+    """A = LazyCall(f1, inner), B = data_replace(A, key, value) / A.copy(): B shares A's inner LazyCall.  Each object is given its
+    own batch size (data_split), then the objects are iterated in an order different from the order of the data_split calls."""
+    from tf_pwa import data as D
+
+    cases = []
+    g = Gen(rnd, np)
+    for si in range(nsh):
+        n = rnd.choice([4, 7, 10, 20, rnd.randrange(3, 41)])
+        a0, c0, a1, c1 = rnd.randrange(1, 4), rnd.randrange(-2, 3), rnd.randrange(1, 4), rnd.randrange(-2, 3)
+        x = {k: g.leaf(n) for k in sorted(rnd.sample(KEYS[:4], rnd.randrange(1, 3)))}
+        f0 = lambda d: {k: a0 * v + c0 for k, v in d.items()}
+        f1 = lambda d: {k: a1 * v + c1 for k, v in d.items()}
+        heavy_inner = si % 2 == 1
+        inner = D.LazyCall(D.HeavyCall(f0) if heavy_inner else f0, x)
+        A = D.LazyCall(f1, inner)
+        eA = {k: g.leaf(n) for k in sorted(rnd.sample(KEYS[4:], 1 + si % 2))}
+        for k, v in eA.items():
+            A[k] = v
+        k0 = sorted(eA)[0]
+        B = D.data_replace(A, k0, 2 * eA[k0]) if si % 3 else A.copy()
+        eB = dict(eA, **{k0: 2 * eA[k0]}) if si % 3 else dict(eA)
+        bs = batch_sizes(rnd, n)
+        bA, bB = rnd.sample(bs, 2) if len(bs) > 1 else (bs[0], bs[0])
+        fm = "(map_leaves (affine (%d)%%Z (%d)%%Z))" % (a1 * a0, a1 * c0 + c1)
+        inp0 = {"op": "LazyCall with a shared inner LazyCall", "n": n, "batch_A": bA, "batch_B": bB, "inner": "HeavyCall" if heavy_inner else "plain",
+                "B": "data_replace(A, %r, 2*w)" % k0 if si % 3 else "A.copy()", "extra": sorted(eA)}
+        ctx.count("shared_inner_%s" % ("heavy" if heavy_inner else "plain"))
+        try:
+            pa = D.data_split(A, bA)
+            pb = D.data_split(B, bB)
+            for tag, obj, it, b, e in (("A", A, pa, bA, eA), ("B", B, pb, bB, eB), ("A2", A, pa, bA, eA)):
+                pieces = [D.data_to_numpy(p) for p in it]
+                ctx.evaluations += 1
+                ctx.distinct.add(("shared", si, tag))
+                inp = dict(inp0, iterated=tag, pieces=[[int(D.data_shape(p[sorted(x)[0]])), int(D.data_shape(p[k0]))] for p in pieces][:6])
+                cases.append(("shared_%d_%s" % (si, tag), "list_eqb data_eqb (lazy_batches_shared %s 1000 %d %d %s %s) [%s] = true" % (fm, b, b, enc(x), enc(e), ";".join(enc(p) for p in pieces)), inp))
+                if not (pieces and struct_eq(D.data_merge(*pieces), D.data_to_numpy(obj.eval()))):
+                    direct.append(dict(inp, test="data_merge(*data_split(A, bA)) == A.eval() after data_split(B, bB) on an object sharing A's inner LazyCall"))
+        except BadLeaf:
+            raise
+        except Exception as ex:
+            direct.append(dict(inp0, test="iteration raised %s: %s" % (type(ex).__name__, str(ex)[:160])))
+    return cases
+
+
 def run(ctx):
     import bootstrap
 
@@ -607,7 +828,11 @@ def run(ctx):
                 "merge(split), merge of independently sized pieces, batch_call (structure-valued and array-valued f), 2 masks (sparse, dense/all/none), "
                 "data_shape, 3 index paths (valid and invalid); dat files: 1..5 particles x 1..50 events x txt/npy/npz/dat x one or several files x "
                 "shuffled row content; CalAngleData.savetxt with shuffled order; SimpleData.savetxt/load_p4 for dat_order permutations; "
-                "save_data/save_dataz/load_data, cached-data file (ConfigLoader: direct load == run that writes == run that reads, with bg_weight / weight_scale / weight files, simple and multi data); LazyCall plain / HeavyCall (also with an on-disk cache shared by several batch sizes and objects) with and without extra; distinct = distinct (operation, structure, batch)")
+                "save_data/save_dataz/load_data, cached-data file (ConfigLoader: direct load == run that writes == run that reads, with bg_weight / weight_scale / weight files, simple and multi data); LazyCall plain / HeavyCall (also with an on-disk cache shared by several batch sizes and objects) with and without extra; "
+                "axis=-1: the same trees with events along the last axis ((n,) and (4,n) leaves) and (c,n) arrays bare / in dict / list / tuple / deep, all batch-size classes; "
+                "CalAngleData.savetxt file names without extension / .dat / .txt, with and without save_charge; save_data of a list / tuple of 1..3 groups and of arrays with 1 and 2 events; "
+                "LazyFile with 0/1/2 extra entries, every batch size visited twice, and HeavyCall over LazyFile; LazyCall objects sharing an inner LazyCall (copy / data_replace) "
+                "given different batch sizes and iterated afterwards; distinct = distinct (operation, structure, batch)")
     common.theorem_stage(ctx)
     scratch = os.path.join(ctx.dir, "files")
     import shutil
@@ -623,6 +848,9 @@ def run(ctx):
         ctx.log("file cases done: %d" % len(cases))
         cached_data_cases(ctx, rnd, np, direct, scratch)
         cases += lazy_cases(ctx, rnd, np, 9 if quick else 45, direct, scratch)
+        cases += axis_cases(ctx, rnd, np, 10 if quick else 60, direct)
+        cases += lazyfile_cases(ctx, rnd, np, 6 if quick else 30, direct)
+        cases += shared_inner_cases(ctx, rnd, np, 6 if quick else 30, direct)
     except BadLeaf as ex:
         ctx.fail("decode", "leaf", "an array returned by the implementation does not hold event ids any more: %s" % ex,
                  site="tf_pwa.data", fingerprint="decode")
